@@ -94,6 +94,8 @@ def gen_real(rng):
                 m = m + "." + str(rng.randrange(10 ** rng.randint(1, 4)))
             e = rng.choice(["E", "e"]) + rng.choice(["", "+", "-"]) + str(rng.randrange(0, 30))
             text = sign + m + e
+        if float(text) == 0.0:
+            text = text.lstrip("-")  # ISO 6093: zero is never written with a minus sign
         return B.real_decimal(nr, text), float(text), "NR%d" % nr
     sign = rng.choice([1, -1])
     base = rng.choice([2, 8, 16])
